@@ -56,11 +56,12 @@ class PandasCheckBackend(BaseCheckBackend):
         # pandas groupby objects instead of dicts.
         if groups is None:
             return {  # type: ignore[return-value]
-                (k if isinstance(k, bool) else k[0] if len(k) == 1 else k): v
+                (k[0] if isinstance(k, tuple) and len(k) == 1 else k): v
                 for k, v in groupby_obj  # type: ignore[union-attr]
             }
         group_keys = {
-            k[0] if len(k) == 1 else k for k, _ in groupby_obj  # type: ignore[union-attr]
+            k[0] if isinstance(k, tuple) and len(k) == 1 else k
+            for k, _ in groupby_obj  # type: ignore[union-attr]
         }
         invalid_groups = [g for g in groups if g not in group_keys]
         if invalid_groups:
